@@ -14,7 +14,7 @@
    below), the geometric correctness of ray casting (holes_assigned) and the composition
    build_polygon_recovers. *)
 From Coq Require Import ZArith List Bool Permutation Lia.
-From Verif Require Import Geo.Model Geo.JoinProofs Geo.Conserve Geo.Closes Geo.Cut Geo.Orient Geo.Sources Geo.Holes Geo.Annotate Geo.Edges Geo.Rings Geo.GroupIdx Geo.Recover Geo.Contain Geo.Assign Geo.Truthful Geo.Build Geo.Collect C16.Spec C16.RayQ Geo.Tables C16.GenOk.
+From Verif Require Import Geo.Model Geo.JoinProofs Geo.Conserve Geo.Closes Geo.Cut Geo.Orient Geo.Sources Geo.Holes Geo.Annotate Geo.Edges Geo.Rings Geo.GroupIdx Geo.Recover Geo.Contain Geo.Assign Geo.Truthful Geo.Build Geo.Collect Geo.Jordan Geo.BuildGeo C16.Spec C16.RayQ Geo.Tables C16.GenOk.
 From VerifGen Require Import GenMputil.
 Import ListNotations.
 Open Scope Z_scope.
@@ -320,6 +320,60 @@ Theorem C16_contains_ring_lines : forall o OL h HL, (1 <= length o)%nat -> (1 <=
 Proof. exact contains_ring_lines. Qed.
 Print Assumptions C16_contains_ring_lines.
 
+(* 10. Jordan-style characterisation for star-shaped rings.  [kernel r c]: every edge of the
+       closed ring r has c strictly on its left (r is star-shaped about c, counter-clockwise) and
+       exactly one edge crosses c's height upwards.  [reach r c p]: p is joined to c by
+       axis-parallel legs none of which meets r ([clear_h] / [clear_v]: the edge stays strictly on
+       one side of the leg's line, or the leg's end points are strictly on the same side of the
+       edge's line).  Then polygonContains' test reports p inside: the kernel point has an odd
+       crossing number and the parity does not change along a leg that meets no edge - with the
+       code's half-open tie rule.  So "strictly inside" in 7 / 8 can be read geometrically. *)
+Theorem C16_kernel_inside : forall r c, line_closed r -> kernel r c -> point_in_ring r c = true.
+Proof. exact kernel_inside. Qed.
+Theorem C16_leg_parity : forall r p q, line_closed r -> leg_clear r p q ->
+  point_in_ring r p = point_in_ring r q.
+Proof. exact leg_parity. Qed.
+Theorem C16_reach_inside : forall r c p, line_closed r -> kernel r c -> reach r c p ->
+  point_in_ring r p = true.
+Proof. exact reach_inside. Qed.
+Print Assumptions C16_reach_inside.
+
+(* 10b. holes_assigned and build_polygon_recovers over GEOMETRIC containment ([contained_geo]:
+        every outer ring is star-shaped about a kernel point, in either drawing direction, every
+        vertex of each of its holes is reachable from that point without meeting the ring, and
+        holes avoid the bounding boxes of the other outers) - the scene class of the generator,
+        which asserts exactly these predicates with exact integer arithmetic *)
+Theorem C16_contained_geo : forall sc,
+  Forall (fun r => (3 <= length r)%nat) (s_outers sc) -> contained_geo sc -> contained sc.
+Proof. exact contained_geo_contained. Qed.
+Theorem C16_holes_assigned_geo : forall incl (sc' : gscene) orings rhs' hlines,
+  NoDup (concat (s_outers sc')) -> NoDup (concat (s_holes sc')) ->
+  Forall (fun r => (3 <= length r)%nat) (s_outers sc' ++ s_holes sc') ->
+  contained_geo sc' ->
+  Forall2 (fun oh ol => ccw_line (fst oh) ol) sc' orings ->
+  Forall2 cw_line rhs' hlines -> Permutation rhs' (s_holes sc') ->
+  let mp := add_all incl (map (fun r => [r]) orings) hlines in
+  Forall2 poly_recovered sc' mp /\
+  length (concat (map (@tl line) mp)) = length (s_holes sc').
+Proof. exact holes_assigned_geo. Qed.
+Print Assumptions C16_holes_assigned_geo.
+Theorem C16_build_polygon_recovers_geo : forall incl nodes ways members ds (sc : gscene),
+  sc <> [] ->
+  NoDup (concat (s_outers sc)) -> NoDup (concat (s_holes sc)) ->
+  Forall (fun r => (3 <= length r)%nat) (s_outers sc ++ s_holes sc) ->
+  (forall r, In r (s_outers sc ++ s_holes sc) -> Orient.shoelace (Rings.close_ring r) <> 0) ->
+  contained_geo sc ->
+  Forall2 (member_ok nodes ways (s_outers sc) (s_holes sc)) members ds ->
+  is_cut_lines (map Rings.close_ring (s_outers sc)) (outer_lines ds) ->
+  is_cut_lines (map Rings.close_ring (s_holes sc)) (inner_lines ds) ->
+  exists mp sc',
+    geom_polys (fst (build_polygon incl nodes ways members)) = Some mp /\
+    snd (build_polygon incl nodes ways members) = false /\
+    Permutation sc' sc /\ Forall2 poly_recovered sc' mp /\
+    length (concat (map (@tl line) mp)) = length (s_holes sc).
+Proof. exact build_polygon_recovers_geo. Qed.
+Print Assumptions C16_build_polygon_recovers_geo.
+
 (* 9. tie by translation.  gen/GenMputil.v is regenerated from /repo's Go source on every run by
       translator/cmd/mputil (go/ast): Join's if / else-if chain as a table, the first-half test of
       the removal, compact's test, MultiSegment.Orientation's term and sign test,
@@ -526,3 +580,28 @@ Qed.
 Example ex8_result : build_polygon false ex8_nodes ex8_ways ex8_members =
   (GPolygon [[(1,1); (9,1); (9,9); (1,9); (1,1)]; [(3,3); (3,5); (5,5); (3,3)]], false).
 Proof. vm_compute. reflexivity. Qed.
+
+(* the hole of ex8 is geometrically inside the square: kernel point (6,6); (3,3) and (3,5) are
+   reached by a horizontal then a vertical leg, (5,5) by two legs as well *)
+Ltac ex_clear := first
+  [ left; split; simpl; lia
+  | right; left; split; simpl; lia
+  | right; right; left; split; vm_compute; reflexivity
+  | right; right; right; split; vm_compute; reflexivity ].
+Ltac ex_leg_h := left; split; [reflexivity|]; intros e [<-|[<-|[<-|[<-|[]]]]]; ex_clear.
+Ltac ex_leg_v := right; split; [reflexivity|]; intros e [<-|[<-|[<-|[<-|[]]]]]; ex_clear.
+Example ex9_inside_star : inside_star [(1,1); (9,1); (9,9); (1,9)] [(3,3); (3,5); (5,5)].
+Proof.
+  split; [discriminate|]. exists (6, 6). left. split.
+  - split; [|reflexivity]. intros e [<-|[<-|[<-|[<-|[]]]]]; vm_compute; reflexivity.
+  - intros p [<-|[<-|[<-|[]]]].
+    + exists [(3, 6); (3, 3)]. split; [|reflexivity]. split; [ex_leg_h|]. split; [ex_leg_v|exact I].
+    + exists [(3, 6); (3, 5)]. split; [|reflexivity]. split; [ex_leg_h|]. split; [ex_leg_v|exact I].
+    + exists [(5, 6); (5, 5)]. split; [|reflexivity]. split; [ex_leg_h|]. split; [ex_leg_v|exact I].
+Qed.
+Example ex9_contained_geo : contained_geo ex8_scene.
+Proof.
+  split.
+  - intros o hs h [E|[]] Hh. inversion E; subst. destruct Hh as [<-|[]]. exact ex9_inside_star.
+  - intros o hs h o' hs' [E|[]] Hh [E'|[]] Hne. inversion E; inversion E'; subst. congruence.
+Qed.
